@@ -352,7 +352,7 @@ func judge(in *instance, e *sched.Exec) (string, string) {
 	case e.Deadlock:
 		return "deadlock", "deadlock: " + e.DeadlockAt
 	case e.Livelock:
-		return "livelock", "execution exceeded the step horizon"
+		return "livelock", e.LivelockWhy()
 	}
 	return in.after()
 }
